@@ -488,6 +488,9 @@ def owner(t, v):
     from vf.models.conform import strict
 
     for c in t.children:
+        if strict(v, c, exact=True) is None:
+            return c
+    for c in t.children:
         if strict(v, c) is None:
             return c
     return None
